@@ -7,6 +7,7 @@ HERE = os.path.dirname(os.path.abspath(__file__)); sys.path.insert(0, HERE)
 from gen import Gen, Pool, py_proto
 from canon import val_proto
 from common import model, build_module, fresh, case_hash, proto_py
+from apischema.cache import reset as _cache_reset
 
 
 def canon_out(t, out):
@@ -133,6 +134,7 @@ def run(prop, seed, budget, ctx):
     mod = build_module(pool.source(), f"{prop}_{seed}"); ns = dict(vars(mod))
     reqs, meta, failures, hist, distinct, samples = [], [], [], collections.Counter(), set(), []
     for t in types:
+        _cache_reset()      # typing-equal types (Literal[1, True] / Literal[True, 1]) share one cache entry: finding KF13, not this property
         tp = eval(t.py, ns)
         # (uniqueItems is tested on the raw data: distinct data may have equal images, which are then not values of the type)
         amb = ambiguous_union(t) or has_unique(t) or (prop == "C05" and (has_props_bound_on_class(t) or json_ambiguous_union(t)))
